@@ -4,6 +4,8 @@ CONSTANTS
     MaxRefresh = 1
     ItemGiveBackUsesItemTag = TRUE
     AtomicRefresh = TRUE
+    MaxReset = 1
+    AtomicReset = TRUE
 SPECIFICATION Spec
 VIEW view
 INVARIANTS TypeOK Bounded NoStaleHandout NoStaleInPool
